@@ -6,8 +6,8 @@ from checks.c15 import strict_eq
 
 def keys_for(tier):
     if tier == "thorough":
-        return "oct:32,oct:48,oct:64,oct:100,oct:33,rsa:2048,rsa:2050,rsa:2054,rsa:3072,rsa:3074,rsa:4096,ec:P-256,ec:P-384,ec:P-521,ec:secp256k1,okp:Ed25519,okp:Ed448"
-    return "oct:32,oct:64,oct:33,rsa:2048,rsa:2050,ec:P-256,ec:P-384,ec:P-521,ec:secp256k1,okp:Ed25519,okp:Ed448"
+        return "oct:32,oct:48,oct:64,oct:100,oct:33,oct:128,oct:129,oct:300,rsafile:8200,rsafile:16384,rsa:2048,rsa:2050,rsa:2054,rsa:3072,rsa:3074,rsa:4096,ec:P-256,ec:P-384,ec:P-521,ec:secp256k1,okp:Ed25519,okp:Ed448"
+    return "oct:32,oct:64,oct:33,oct:129,oct:300,rsafile:8200,rsa:2048,rsa:2050,ec:P-256,ec:P-384,ec:P-521,ec:secp256k1,okp:Ed25519,okp:Ed448"
 
 
 def judge(path):
